@@ -54,6 +54,12 @@ var (
 )
 
 func NewAccidental(s string) Accidental {
+	switch s {
+	case "♯":
+		return Sharp
+	case "♭":
+		return Flat
+	}
 	if x, ok := stringAccidentalMap[s]; ok {
 		return x
 	}
